@@ -325,7 +325,7 @@ def check(prop, tier):
         run_part(prop, pi, part, tier, base_seed, work, oc)
 
     # 3. failures -> replay files
-    founddir = os.path.join(ROOT, 'replays', 'found')
+    founddir = os.path.join(ROOT, 'replays', 'found') if KEY == 'default' else os.path.join(ROOT, '.work', 'found-' + KEY)
     seen_msgs = set()
     for n, (fail, what, tail) in enumerate(oc.failures):
         sig = fail.get('signature') or ''
@@ -348,8 +348,9 @@ def check(prop, tier):
 
     # 4. evidence
     ev = evidence(prop, tier, base_seed, cfg, oc, regress_run, violations, known_lines, time.time() - t0)
-    os.makedirs(os.path.join(ROOT, 'evidence'), exist_ok=True)
-    json.dump(ev, open(os.path.join(ROOT, 'evidence', prop + '.json'), 'w'), indent=1)
+    evdir = os.path.join(ROOT, 'evidence') if KEY == 'default' else os.path.join(ROOT, '.work', 'evidence-' + KEY)
+    os.makedirs(evdir, exist_ok=True)
+    json.dump(ev, open(os.path.join(evdir, prop + '.json'), 'w'), indent=1)
     if not os.environ.get('VERIF_KEEP_WORK'):
         shutil.rmtree(work, ignore_errors=True)
 
